@@ -515,8 +515,7 @@ pub fn run(cfg: &Cfg, rep: &mut Rep) {
                         check_out_of_range(rep, y, m, d, h, mi, 60, suffix, "second 60 without a leap second");
                     }
                     // ... and next to a UTC offset: rejected whenever neither the wall clock nor the instant it denotes
-                    // (wall clock minus offset) nor its mirror (wall clock plus offset) is 23:59 of an insertion day - in
-                    // particular when only the wrong-way shift lands there
+                    // (wall clock minus offset) is 23:59 of an insertion day
                     for (oh, om) in [(1i64, 0i64), (-1, 0), (5, 30), (-3, -30), (23, 0), (-23, 0), (0, 1), (0, -1)] {
                         let off = oh * 60 + om;
                         let wall = h as i64 * 60 + mi as i64;
@@ -527,8 +526,14 @@ pub fn run(cfg: &Cfg, rep: &mut Rep) {
                             let (yy, mm, d2) = cal::civil_from_days_1900(dd);
                             tt == 23 * 60 + 59 && super::c08::classify(&tab, yy, mm, d2, 23, 59, 60, 0).0 != super::c08::Want::Reject
                         };
-                        if lands(0) || lands(off) || lands(-off) {
+                        // (wall clock at 23:59 of an insertion day: accepted today whatever the offset, left open; wall clock
+                        // minus offset there: a real leap second written in local time, left open; wall clock *plus* offset
+                        // there is the wrong-way shift and denotes no leap second: must be rejected like any other time)
+                        if lands(0) || lands(-off) {
                             continue;
+                        }
+                        if lands(off) {
+                            rep.class("str/second-60-only-the-wrong-way-shift-is-a-leap-second");
                         }
                         let txt = format!("{:04}-{:02}-{:02}T{:02}:{:02}:60{}{:02}:{:02}", y, m, d, h, mi, if off < 0 { '-' } else { '+' }, off.abs() / 60, off.abs() % 60);
                         check_out_of_range_text(rep, &txt, None, "second 60 without a leap second");
